@@ -8,5 +8,5 @@ Extraction "model.ml"
   enc_varint dec_varint size_of_varint size_of_zigzag size_key enc_zz32 enc_zz64 dec_zz32 dec_zz64
   estep erun ebytes esize enc_nested dstep drun in_dom
   parse protodump
-  lazy_decode_dec lazy_decode_fn lazy_decode_nested observe pstep prun pinit
+  lazy_decode_dec lazy_decode_fn lazy_decode_nested observe acc_aliases_input pstep prun pinit
   vdepth gen_size gen_ops gen_marshal gen_marshal_to ref_decode normalize gen_unmarshal legal_msg no_dup_msgs out_names apply_opt default_opts.
